@@ -57,6 +57,14 @@ class Suite:
         if len(self.lines) >= self.batch:
             self.flush()
 
+    def add_raw(self, line: str, answer: str, tag: str = ""):
+        """like add(), for an implementation answer that is already a canonical string"""
+        self.lines.append(line)
+        self.impl.append(answer)
+        self.dist[(tag or line.split(" ", 2)[1]) + ":" + ("err" if " err " in (" " + answer) else "ok")] += 1
+        if len(self.lines) >= self.batch:
+            self.flush()
+
     def flush(self):
         if not self.lines:
             return
